@@ -11,6 +11,7 @@ from vf.harness import histories, itemrun as ir, itemworld as iw
 from vf.harness import world as w
 
 TRUSTED = [
+    "group pass (Model/Dispatch.v): the pending requests are taken in id order, as sqlite returns them; update_pull's answer is an input of the model; HSM family: scripted lfs, virtual clock, the system's rsync",
     "Coq 8.16.1 kernel + VM (the item theorems are decided by vm_compute over complete finite enumerations, lifted by forallb_forall); no native_compute",
     "the item model is hand-written (Model/Item.v); tie = correspondence: five fault-free rounds of the real daemons on single-item worlds from every kind of start state "
     "(consistent or not) are compared round by round with the model in Coq",
